@@ -868,3 +868,64 @@ def enclosing_conditions(node, stop=None):
         child = n
         n = getattr(n, "_parent", None)
     return list(reversed(out))
+
+
+def single_assign_aliases(fn) -> dict:
+    """Locals of `fn` assigned exactly once (plain `name = <expr>`, not in a loop target / augmented) -> value node."""
+    counts: dict = {}
+    vals: dict = {}
+    for st in walk_no_nested(fn):
+        if isinstance(st, ast.Assign):
+            for t in st.targets:
+                for n in ast.walk(t):
+                    if isinstance(n, ast.Name):
+                        counts[n.id] = counts.get(n.id, 0) + 1
+                        if isinstance(t, ast.Name) and len(st.targets) == 1:
+                            vals[n.id] = st.value
+        elif isinstance(st, (ast.AugAssign, ast.AnnAssign)):
+            for n in ast.walk(st.target):
+                if isinstance(n, ast.Name):
+                    counts[n.id] = counts.get(n.id, 0) + 2
+        elif isinstance(st, (ast.For, ast.comprehension)):
+            for n in ast.walk(st.target):
+                if isinstance(n, ast.Name):
+                    counts[n.id] = counts.get(n.id, 0) + 2
+        elif isinstance(st, (ast.With,)):
+            for it in st.items:
+                if it.optional_vars is not None:
+                    for n in ast.walk(it.optional_vars):
+                        if isinstance(n, ast.Name):
+                            counts[n.id] = counts.get(n.id, 0) + 2
+    params = set(func_params(fn)) if isinstance(fn, (ast.FunctionDef, ast.AsyncFunctionDef)) else set()
+    return {k: v for k, v in vals.items() if counts.get(k) == 1 and k not in params}
+
+
+def expand_aliases(expr, aliases: dict, depth: int = 0):
+    """Copy of `expr` with single-assignment local names replaced by their defining expressions (transitively)."""
+    import copy
+
+    class T(ast.NodeTransformer):
+        def visit_Name(self, node):
+            if isinstance(node.ctx, ast.Load) and node.id in aliases and depth < 6:
+                return expand_aliases(aliases[node.id], aliases, depth + 1)
+            return node
+
+    return T().visit(copy.deepcopy(expr))
+
+
+def enclosing_conditions_expanded(node, fn):
+    """enclosing_conditions with tests rewritten through single-assignment local aliases."""
+    aliases = single_assign_aliases(fn)
+    out = []
+    child = node
+    n = getattr(node, "_parent", None)
+    while n is not None and n is not fn:
+        if isinstance(n, (ast.If, ast.While)):
+            t = norm(expand_aliases(n.test, aliases))
+            if any(child is x for x in n.body):
+                out.append((t, True))
+            elif any(child is x for x in n.orelse):
+                out.append((t, False))
+        child = n
+        n = getattr(n, "_parent", None)
+    return list(reversed(out))
